@@ -121,7 +121,11 @@ def idx(e, i): return {"k": "idx", "e": e, "i": i}
 def dynidx(e, i): return {"k": "dynidx", "e": e, "i": i}
 def view(e, to): return {"k": "view", "e": e, "to": to}
 def resize(e, w): return {"k": "resize", "e": e, "w": w}
-def call(f, args, p=None): return {"k": "call", "f": f, "args": args, "p": p or []}
+def call(f, args, p=None, ty=None):
+    e = {"k": "call", "f": f, "args": args, "p": p or []}
+    if ty is not None:
+        e["ty"] = ty
+    return e
 NULL = {"k": "null"}
 FULL = {"k": "full"}
 def strlit(s): return {"k": "strlit", "s": s, "b": [int(c) for c in reversed(s)]}
@@ -287,6 +291,14 @@ class Printer:
                 return f"std.one_hot({p[0]}, {a[0]})"
             if f == "clamp":
                 return f"std.clamp({a[0]}, {p[0]}, {p[1]})"
+            if f == "choose_first":        # args: c1, v1, c2, v2, ..., default;  e["ty"]: the checked result type
+                pairs = ", ".join(f"({a[i]}, {a[i + 1]})" for i in range(0, len(a) - 1, 2))
+                return f"std.choose_first[{ty_py(e['ty'])}]({pairs}, default={a[-1]})"
+            if f == "cond":
+                return f"std.cond[{ty_py(e['ty'])}]({a[0]}, {a[1]}, {a[2]})"
+            if f == "select":              # args: arg, k1, v1, ..., default
+                arms = ", ".join(f"{a[i]}: {a[i + 1]}" for i in range(1, len(a) - 1, 2))
+                return f"std.select[{ty_py(e['ty'])}]({a[0]}, {{{arms}}}, default={a[-1]})"
             return f"std.{f}({', '.join(a + [str(x) for x in p])})"
         raise ValueError(k)
 
